@@ -40,7 +40,7 @@ def teardown(ctx):
 
 
 def plan(tier):
-    m = 1 if tier == 'quick' else 12
+    m = 3 if tier == 'quick' else 20
     return [('analysis', 1400 * m), ('short', 150 * m), ('long', 40 * m), ('derived', 150 * m)]
 
 
